@@ -54,6 +54,10 @@ type VC struct {
 	trusted       map[string]bool
 	callees       map[string]bool
 	intMode       bool
+	ringMode      bool
+	allocRefs     map[string]bool // terms used as the reference of an object allocated by this function
+	slice         sliceInfo
+	opaqueDef     map[string]opaqueDef
 	rs            *runState
 	csHit         map[*CallSite]bool
 	indexTerms    []string
@@ -242,6 +246,10 @@ func (vc *VC) store(h *Heap, t types.Type, r, o string, v *Val) {
 	l := layoutOf(t)
 	if l.Kind != KAgg {
 		vc.storeScalar(h, l, r, o, v)
+		if vc.ringMode {
+			// a limb written directly: the abstract ring values held in this object are no longer known
+			h.m["fe"] = vc.define("H", heapSort("fe"), sto(h.m["fe"], r, vc.fresh("A", innerSort("fe"))))
+		}
 		return
 	}
 	if v.K != KAgg {
@@ -253,15 +261,32 @@ func (vc *VC) store(h *Heap, t types.Type, r, o string, v *Val) {
 // memcpy copies n cells laid out as l (repeated) from (src heap, sr, so) to (dst heap h, dr, do).
 // ncells < 0 means symbolic count nTerm.
 func (vc *VC) memcpy(h *Heap, dr, do string, sh *Heap, sr, so string, l *Layout, nTerm string, ncells int64) {
+	comps := []string{}
 	if ncells >= 0 && ncells <= 24 && l.N > 0 && ncells%l.N == 0 {
 		for base := int64(0); base < ncells; base += l.N {
 			vc.copyCells(h, dr, do, sh, sr, so, l, base)
 		}
-		return
+		if !vc.ringMode {
+			return
+		}
+	} else {
+		for c := range l.Comps() {
+			comps = append(comps, c)
+		}
 	}
-	comps := []string{}
-	for c := range l.Comps() {
-		comps = append(comps, c)
+	if vc.ringMode {
+		// the ghost ring values travel with the cells (a copy of whole elements copies their values)
+		if starts := leafStarts(l, 0, nil); ncells >= 0 && l.N > 0 && ncells%l.N == 0 && int64(len(starts))*(ncells/l.N) <= 64 {
+			for base := int64(0); base < ncells; base += l.N {
+				for _, st := range starts {
+					k := off64(base + st)
+					cur := h.m["fe"]
+					h.m["fe"] = vc.define("H", heapSort("fe"), sto(cur, dr, sto(sel(cur, dr), bvBin("bvadd", do, k), sel(sel(sh.m["fe"], sr), bvBin("bvadd", so, k)))))
+				}
+			}
+		} else {
+			comps = append(comps, "fe")
+		}
 	}
 	sort.Strings(comps)
 	for _, c := range comps {
@@ -297,6 +322,14 @@ func (vc *VC) copyCells(h *Heap, dr, do string, sh *Heap, sr, so string, l *Layo
 func (vc *VC) allocObj(h *Heap, l *Layout) string {
 	r := vc.define("ref", "Int", h.alloc)
 	h.alloc = vc.define("alloc", "Int", app("+", h.alloc, "1"))
+	if vc.allocRefs == nil {
+		vc.allocRefs = map[string]bool{}
+	}
+	vc.allocRefs[r] = true
+	if vc.ringMode && l != nil {
+		// a zero-initialised element represents the ring's zero
+		h.m["fe"] = vc.define("H", heapSort("fe"), sto(h.m["fe"], r, "((as const "+innerSort("fe")+") 0)"))
+	}
 	if l != nil {
 		comps := []string{}
 		for c := range l.Comps() {
@@ -339,7 +372,7 @@ func (vc *VC) havocAll(h *Heap, only map[string]bool) {
 	}
 	sort.Strings(names)
 	for _, c := range names {
-		if only != nil && !only[c] {
+		if only != nil && !only[c] && !(vc.ringMode && c == "fe" && len(only) > 0) {
 			continue
 		}
 		old := h.m[c]
@@ -368,6 +401,9 @@ func (vc *VC) havocObj(h *Heap, r string, comps map[string]bool) {
 	names := make([]string, 0, len(comps))
 	for c := range comps {
 		names = append(names, c)
+	}
+	if vc.ringMode && len(comps) > 0 && !comps["fe"] {
+		names = append(names, "fe") // the ghost ring values of a written object are unknown afterwards
 	}
 	sort.Strings(names)
 	for _, c := range names {
